@@ -407,7 +407,6 @@ func concChild(spec string) {
 	wg.Wait()
 	// print the sample as ordinary cases (single-threaded from here on)
 	tmp, _ := os.MkdirTemp(filepath.Dir(parts[2]), "conc_child_")
-	defer os.RemoveAll(tmp)
 	a := &Args{Out: tmp, Only: -1}
 	r := &runner{w: w, cw: NewCaseWriter(a, "C01", "", "case", "run"), rng: NewRng(seed), restMem: map[string][2]bool{}}
 	r.sink = func(id int64, term string, k *kase, key string, nontrivial bool) {
@@ -430,6 +429,7 @@ func concChild(spec string) {
 	}
 	bw.Flush()
 	out.Close()
+	os.RemoveAll(tmp)
 	os.Exit(0)
 }
 
